@@ -61,8 +61,12 @@ def tag(i, j):
 
 
 def mkrecord(files):
-    """A real IH5Record around already opened raw containers (what IH5Record._open assembles)."""
-    r = IH5Record.__new__(IH5Record)
+    """A real IH5Record (SEL rcls=mf: IH5MFRecord) around already opened raw containers (what _open assembles)."""
+    rcls = IH5Record
+    if SEL.get("rcls") == "mf":
+        from metador_core.ih5.manifest import IH5MFRecord
+        rcls = IH5MFRecord
+    r = rcls.__new__(rcls)
     IH5Group.__init__(r, r)
     r._closed = False
     r.__files__ = files
@@ -483,3 +487,28 @@ def ih5_only_ok(op, p, q, T, T2, res, files):
     return False
 
 
+
+
+# ---------------------------------------------------------------------------------------
+# key guard (genuinely symbolic string): accepted <=> documented IH5 key alphabet
+
+def guard_key(key: str, attrs: bool) -> bool:
+    """
+    pre: len(key) <= 3
+    post: _
+    """
+    reach()
+    node = IH5AttributeManager.__new__(IH5AttributeManager) if attrs else IH5Group.__new__(IH5Group)
+    object.__setattr__(node, "_IH5InnerNode__is_attrs__", attrs) if False else None
+    node.__dict__["__is_attrs__"] = True if attrs else False
+    ok = len(key) > 0
+    for c in key:
+        if not ("!" <= c <= "~") or c == "@":
+            ok = False
+    if attrs and ("/" in key or key == SUBST_KEY):
+        ok = False
+    try:
+        node._guard_key(key)
+        return ok
+    except ValueError:
+        return not ok
